@@ -120,7 +120,7 @@ class ProjInitCtx(JobCtx):
 class ProjectInitRG(RGContract):
     """Project(path) raced by other processes opening the same project (workspace directory created concurrently)"""
     target = f"{PRJ}.Project.__init__"
-    properties = ("C12", "C20")
+    properties = ("C05", "C12", "C20")
     ctx_class = ProjInitCtx
     inline = GETTERS + (f"{CFG}._get_project_config_fn", f"{PRJ}.Project._check_schema_compatibility", f"{PRJ}.Project.config", "signac._utility._mkdir_p")
 
@@ -130,7 +130,14 @@ class ProjectInitRG(RGContract):
     def make_ctx(self, case):
         import os
         ctx = super().make_ctx(case)
-        ctx.externals[os.path.abspath] = lambda interp, p: p
+        def abspath(interp, p):
+            # the normalised spelling of the path: a new value, marked (every handle on a project must spell its file names the same way)
+            if isinstance(p, LProj):
+                n = LProj(p.p)
+                n.normalised = True
+                return n
+            return p
+        ctx.externals[os.path.abspath] = abspath
         ctx.overrides[(PRJ, "RLock")] = NativeStub(lambda: None, "RLock")
         v = z3.IntVal(2) if case["version"] == 2 else z3.Int("declared_version")
         ctx.ghost["v"] = v
@@ -140,6 +147,17 @@ class ProjectInitRG(RGContract):
     def setup(self, interp, case):
         ex, ctx = interp.ex, interp.ctx
         ctx.fs_init(ex, keys=[])
+        import os
+        join0 = ctx.externals[os.path.join]
+
+        def join(interp_, *parts):
+            r = join0(interp_, *parts)
+            try:
+                r.normalised = bool(getattr(parts[0], "normalised", False))      # spelled from the normalised path or from the raw argument
+            except AttributeError:
+                pass
+            return r
+        ctx.externals[os.path.join] = join
         rp = interp.repo
         rp.load(PRJ)
         o = Obj(rp.classes[f"{PRJ}.Project"])
@@ -172,6 +190,8 @@ class ProjectInitRG(RGContract):
         f = pre["o"].fields
         ok = isinstance(f.get("_workspace"), LWs) and isinstance(f.get("_path"), LProj)
         ex.oblige(self.oname("ensures:handle_bound_to_the_project_directory_and_its_workspace"), z3.BoolVal(ok))
+        ex.oblige(self.oname("ensures:project_path_and_workspace_path_are_spelled_from_the_normalised_path_(all_handles_name_the_same_files_alike)"),
+                  z3.BoolVal(ok and getattr(f["_path"], "normalised", False) is True and getattr(f["_workspace"], "normalised", False) is True))
 
 
 def _ex_effects(self, interp):
